@@ -80,6 +80,10 @@ CLAIMED = {
             "every root layer is analysed under three min_2d_thickness values and under every generator (vacuum, all axis relabellings, in-plane supercells, rotation, flip, translation, permutation); structural clauses are evaluated in every state and the normal-form fields are compared with the root",
             "bounded family (1-3 orbits, listed generators, tol 0.01); the set of layer-compatible groups is derived by the harness from the Hall database",
             "DESIGN.md §4 C11"),
+    "C02": ("complete enumeration of a material catalogue x presentations x scripted seed choices on the real SBC",
+            "every catalogue material passing the independent precondition is built as bulk and as every listed slab and clustered under every listed presentation (noise fields, rigid motions, permutation) and seed-choice script; the result must be the single complete cluster with dimensionality 3/2",
+            "recognition claim about a heuristic: the coverage is exactly the enumerated catalogue (quick: 15 materials, thorough: all 62); noise = deterministic fields of exactly the stated amplitude; known findings listed in known_findings.json",
+            "DESIGN.md §4 C02"),
 }
 NA_REASON = "check not built yet in this round; see DESIGN.md §7 order of work"
 
